@@ -84,7 +84,7 @@ def tail_calls(idx, tails):
 
 
 
-TAIL_ORDER = {"cos_2": 2, "sin_3": 3, "cos_4": 4, "sin_5": 5, "cos_6": 6}
+TAIL_ORDER = {"cos_2": 2, "sin_3": 3, "cos_4": 4, "sin_5": 5, "cos_6": 6, "sin_7": 7}
 
 
 def tail_series(name, x2):
